@@ -62,6 +62,8 @@ struct Res {
     rules: BTreeMap<String, u64>,
     unjudged: Vec<String>,
     violation: Option<(String, String)>,
+    /// further violations of other cause classes found in the same case
+    more: Vec<(String, String)>,
     trivial: bool,
     dump: Option<String>,
 }
@@ -82,6 +84,8 @@ fn mimes_of(ext: &str) -> Option<Vec<&'static str>> {
         "jxl" | "image/jxl" => vec!["image/jxl"],
         "flac" | "audio/flac" => vec!["audio/flac"],
         "wav" | "audio/wav" => vec!["audio/wav", "audio/x-wav", "audio/wave", "audio/vnd.wave"],
+        "avi" | "video/avi" => vec!["video/avi", "video/msvideo", "video/x-msvideo", "application/x-troff-msvideo"],
+        "heic" | "image/heic" => vec!["image/heic"],
         _ => return None,
     })
 }
@@ -318,7 +322,10 @@ fn judge_manifest(c: &Case, env: &Env, m: &Value, store_manifests: &Map<String, 
     for s in &d.assertions {
         let sl = canon_label(&s.label, rules);
         let mut scratch = BTreeMap::new();
-        let hit = (0..reported_custom.len()).find(|i| !matched[*i] && reported_custom[*i].0 == sl && veq(&s.data, &reported_custom[*i].1, &mut scratch));
+        // prefer an entry of the same kind (two supplied assertions may share label and data)
+        let hit = (0..reported_custom.len())
+            .find(|i| !matched[*i] && reported_custom[*i].0 == sl && reported_custom[*i].2 == s.json_kind && veq(&s.data, &reported_custom[*i].1, &mut scratch))
+            .or_else(|| (0..reported_custom.len()).find(|i| !matched[*i] && reported_custom[*i].0 == sl && veq(&s.data, &reported_custom[*i].1, &mut BTreeMap::new())));
         match hit {
             Some(i) => {
                 matched[i] = true;
@@ -705,7 +712,16 @@ fn run_case(c: &Case, env: &Env, dump: bool) -> Res {
             for s in &d.assertions {
                 let stored = kinds.get(&s.label).or_else(|| s.label.strip_suffix(".v1").and_then(|l| kinds.get(l)));
                 if let Some(k) = stored {
-                    let dup = d.assertions.iter().filter(|x| x.label == s.label).count() > 1;
+                    // bare label (any `.vN` removed): the SDK stores `x.vN` under `x` (finding
+                    // version-suffix-dropped), so those collide with a plain `x` as well
+                    let canon = |l: &str| {
+                        let c = canon_label(l, &mut BTreeMap::new());
+                        match c.rfind(".v") {
+                            Some(p) if !c[p + 2..].is_empty() && c[p + 2..].chars().all(|ch| ch.is_ascii_digit()) => c[..p].to_string(),
+                            _ => c,
+                        }
+                    };
+                    let dup = d.assertions.iter().filter(|x| canon(&x.label) == canon(&s.label)).count() > 1;
                     if !dup && (k == "json") != s.json_kind {
                         mism.push(("assertion-kind".into(), format!("label {} supplied as {} stored in a `{k}` box", s.label, if s.json_kind { "json" } else { "cbor" })));
                     }
@@ -726,6 +742,16 @@ fn run_case(c: &Case, env: &Env, dump: bool) -> Res {
     if let Some((field, _)) = mism.first() {
         let all: Vec<String> = mism.iter().map(|(f, d)| format!("[{f}] {d}")).collect();
         res.violation = Some((hint("report", &format!("field:{field}")), all.join(" ;; ")));
+        // one violation per distinct field class, so that a known finding cannot hide another defect
+        let mut seen = vec![field.clone()];
+        for (f, dd) in mism.iter().skip(1) {
+            // a dropped version suffix also shows up as missing/unexpected entries under the bare label
+            let echo = seen.iter().any(|s| s == "assertion-label-version-suffix-dropped") && (f == "assertion-unexpected" || f == "assertion-missing" || f == "assertion-data");
+            if !seen.contains(f) && !echo {
+                seen.push(f.clone());
+                res.more.push((hint("report", &format!("field:{f}")), format!("[{f}] {dd}")));
+            }
+        }
     } else if let Some(first) = json_other.first() {
         res.violation = Some(("json-report|differs-from-active_manifest|general".into(), format!("Reader::json() differs from active_manifest(): {first} (+{} more)", json_other.len() - 1)));
     } else if let Some(first) = json_lossy.first() {
@@ -738,8 +764,26 @@ fn case_json(c: &Case) -> Value {
     json!({"def": c.def, "cfg": c.cfg, "directed": c.directed})
 }
 
-fn asset_list(quick: bool) -> Vec<assets::Asset> {
+/// Tiny assets of every writable format + small fixtures.  Formats only available from the extended
+/// generator set (webp avi flac jxl heic) are taken after a pre-flight sign+read with a fixed
+/// definition (their embedding is C07's business); skipped ones are listed in the evidence.
+fn asset_list(quick: bool, skipped: &mut Vec<String>) -> Vec<assets::Asset> {
     let mut all = assets::tiny_assets();
+    let mut have: Vec<&'static str> = all.iter().map(|a| a.format).collect();
+    for a in vmon::embedkit::extended_tiny_assets() {
+        if have.contains(&a.format) || a.format == "c2pa" {
+            continue;
+        }
+        let ok = defgen::sign_simple(a.format, &a.bytes, "preflight", "ed25519", c2pa::BuilderIntent::Create(c2pa::DigitalSourceType::DigitalCapture), &[])
+            .map(|signed| report::read_bytes_catch(defgen::context(true, false, false, &json!({})), a.format, &signed).state == "Trusted")
+            .unwrap_or(false);
+        if ok {
+            have.push(a.format);
+            all.push(a);
+        } else {
+            skipped.push(a.name.clone());
+        }
+    }
     all.extend(assets::fixture_assets(if quick { 110_000 } else { 400_000 }));
     all
 }
@@ -776,6 +820,76 @@ fn make_case(rng: &mut Rng, env: &Env, row: &[usize]) -> Case {
         cfg: Cfg { asset: a.name.clone(), format, alg: signers::ALGS[row[1] % 7].0.to_string(), compressed: row[4] % 2 == 1, mode: MODES[row[5] % 3].to_string(), thumbs: row[6] % 2 == 1 },
         directed: None,
     }
+}
+
+// ------------------------------------------------------------------------------------------------
+// re-signing sequences: sign -> {Update intent, Edit intent on the signed file, Update twice} -> read
+
+struct SeqRes {
+    class: String,
+    violation: Option<(String, String)>,
+    sample: Value,
+}
+
+fn sign_step(format: &str, src: &[u8], title: &str, intent: c2pa::BuilderIntent, alg: &str) -> Result<Vec<u8>, String> {
+    let ctx = defgen::context(true, false, false, &json!({"verify": {"remote_manifest_fetch": false}}));
+    let mut b = c2pa::Builder::from_context(ctx).with_definition(json!({"title": title})).map_err(|e| format!("err:{}", report::err_kind(&e)))?;
+    b.set_intent(intent);
+    let signer = signers::test_signer(alg);
+    let mut s = Cursor::new(src.to_vec());
+    let mut d = Cursor::new(Vec::new());
+    match report::catch_sdk(|| b.sign(signer.as_ref(), format, &mut s, &mut d)) {
+        Ok(Ok(_)) => Ok(d.into_inner()),
+        Ok(Err(e)) => Err(format!("err:{}", report::err_kind(&e))),
+        Err(p) => Err(format!("panic:{p}")),
+    }
+}
+
+/// `seq`: "update" | "edit-on-signed" | "update-twice" | "edit-then-update"
+fn run_sequence(a: &assets::Asset, seq: &'static str, alg: &str) -> SeqRes {
+    let fam = vmon::fmt::family(a.format).unwrap_or("?");
+    let sample = json!({"sequence": seq, "asset": a.name, "format": a.format, "alg": alg});
+    // cause class = the intent of the failing step (not the sequence it was part of) x container family
+    let sig_for = |step: &str, stage: &str, what: &str| format!("{}|{fam}|{stage}{what}", if step == "edit" { "edit-on-signed" } else if step == "update" { "update-intent" } else { "create" });
+    let sig = |stage: &str, what: &str| sig_for("create", stage, what);
+    let create = c2pa::BuilderIntent::Create(c2pa::DigitalSourceType::DigitalCapture);
+    let read = |bytes: &[u8]| report::read_bytes_catch(defgen::context(true, false, false, &json!({"verify": {"remote_manifest_fetch": false}})), a.format, bytes);
+    let first = match sign_step(a.format, &a.bytes, "first", create, "ed25519") {
+        Ok(x) => x,
+        Err(e) => return SeqRes { class: format!("seq|{seq}|{fam}|first-sign-{}", e.split(':').take(2).collect::<Vec<_>>().join(":")), violation: Some((sig("first-sign-", e.split(':').take(2).collect::<Vec<_>>().join(":").as_str()), format!("{}: first (Create) sign failed: {e}", a.name))), sample },
+    };
+    let o1 = read(&first);
+    if o1.state != "Trusted" {
+        return SeqRes { class: format!("seq|{seq}|{fam}|first-readback-{}", o1.state), violation: Some((sig("first-readback-", &format!("{}:{}", o1.state, o1.failure_codes().first().cloned().unwrap_or_default())), format!("{}: first signed file reads {} {:?} {:?}", a.name, o1.state, o1.error, o1.failure_codes()))), sample };
+    }
+    let steps: Vec<(&str, c2pa::BuilderIntent)> = match seq {
+        "update" => vec![("update", c2pa::BuilderIntent::Update)],
+        "edit-on-signed" => vec![("edit", c2pa::BuilderIntent::Edit)],
+        "update-twice" => vec![("update", c2pa::BuilderIntent::Update), ("update", c2pa::BuilderIntent::Update)],
+        _ => vec![("edit", c2pa::BuilderIntent::Edit), ("update", c2pa::BuilderIntent::Update)],
+    };
+    let mut cur = first;
+    let mut n_manifests = 1;
+    for (i, (name, intent)) in steps.into_iter().enumerate() {
+        cur = match sign_step(a.format, &cur, &format!("step {i} {name}"), intent, alg) {
+            Ok(x) => x,
+            Err(e) => {
+                let k = e.split(':').take(2).collect::<Vec<_>>().join(":");
+                return SeqRes { class: format!("seq|{seq}|{fam}|step{i}-sign-{k}"), violation: Some((sig_for(name, "sign-", &k), format!("{}: step {i} ({name} intent) sign failed: {e}", a.name))), sample };
+            }
+        };
+        n_manifests += 1;
+        let o = read(&cur);
+        if o.state != "Trusted" {
+            let code = if o.state == "Err" || o.state == "Panic" { o.error.clone().unwrap_or_default() } else { o.failure_codes().first().cloned().unwrap_or_default() };
+            return SeqRes { class: format!("seq|{seq}|{fam}|{}|step{i}-readback-{}", a.name, o.state), violation: Some((sig_for(name, "readback-", &format!("{}:{code}", o.state)), format!("{}: sequence {seq}: after step {i} ({name} intent) the file reads {} (error {:?}, failures {:?})", a.name, o.state, o.error, o.failure_codes()))), sample };
+        }
+        let have = o.report.get("manifests").and_then(|m| m.as_object()).map(|m| m.len()).unwrap_or(0);
+        if have != n_manifests {
+            return SeqRes { class: format!("seq|{seq}|{fam}|manifest-count"), violation: Some((sig_for(name, "manifest-count", ""), format!("{}: after step {i} the store holds {have} manifests, expected {n_manifests}", a.name))), sample };
+        }
+    }
+    SeqRes { class: format!("seq|{seq}|{fam}|{}|Trusted", a.format), violation: None, sample }
 }
 
 fn directed_cases(env: &Env) -> Vec<Case> {
@@ -823,14 +937,16 @@ fn directed_cases(env: &Env) -> Vec<Case> {
 fn main() {
     let mut run = Run::from_args("C03", "exploration");
     report::quiet_panics();
-    run.rule = "cases = pairwise covering array over (asset incl. every writable tiny format + small fixtures, 7 signing algs, hash alg {default,sha256,sha384,sha512}, claim v1/v2, compressed, embedded/sidecar/remote+embedded, thumbnails, intent {none,create,edit}, 0-3 ingredients, assertion count class) + seeded random rows; each row gets a definition from the defgen grammar (reverse-DNS / non-ASCII / repeated / versioned labels; JSON+CBOR payload trees steered to 23/24, 255/256, 65535/65536 bytes; actions; signed+unsigned ingredients; redactions). Non-trivial = signed, read back Trusted and compared field by field; distinct = (format, alg, hash, claim version, mode, thumbs, definition shape, outcome).".into();
+    run.rule = "cases = pairwise covering array over (asset incl. every writable tiny format + small fixtures, 7 signing algs, hash alg {default,sha256,sha384,sha512}, claim v1/v2, compressed, embedded/sidecar/remote+embedded, thumbnails, intent {none,create,edit}, 0-3 ingredients, assertion count class) + seeded random rows; each row gets a definition from the defgen grammar (reverse-DNS / non-ASCII / repeated / versioned labels; JSON+CBOR payload trees steered to 23/24, 255/256, 65535/65536 bytes; actions; signed+unsigned ingredients; redactions). Non-trivial = signed, read back Trusted and compared field by field; distinct = (format, alg, hash, claim version, mode, thumbs, definition shape, outcome). Plus re-signing sequences on every tiny asset: Create-sign, then {Update intent; Edit intent on the signed file; Update twice; Edit then Update}, each step read back (must be Trusted, store must grow by one manifest).".into();
     run.assumptions = vec![
         "the rule table in the module doc lists the automatic additions that are subtracted; each application is counted (rule:* counters)".into(),
         "ingredient `label` (a builder-side id for linking actions) and ingredient titles that were not supplied are not judged".into(),
         "remote+embedded on a format that cannot carry a remote reference (error kind Xmp*/UnsupportedType) is unjudged".into(),
         "claim alg / digest lengths are read from the returned store with the harness's own JUMBF walker; not observable for compressed manifests".into(),
     ];
-    let env = Env { assets: asset_list(run.quick()), pool: defgen::ingredient_pool() };
+    let mut skipped_assets = Vec::new();
+    let env = Env { assets: asset_list(run.quick(), &mut skipped_assets), pool: defgen::ingredient_pool() };
+    run.set("assets_skipped_by_preflight", json!(skipped_assets));
     if env.pool.n_signed < 4 {
         run.inconclusive(format!("ingredient pool has only {} signed items", env.pool.n_signed));
     }
@@ -887,6 +1003,26 @@ fn main() {
         run.sample(kind, 2, json!({"cfg": cases[i].cfg, "shape": cases[i].def.shape(), "definition": short(&cases[i].def.definition_json())}));
         if let Some((sig, what)) = &r.violation {
             run.violation(sig, what, case_json(&cases[i]));
+        }
+        for (sig, what) in &r.more {
+            run.violation(sig, what, case_json(&cases[i]));
+        }
+    }
+    // ---- re-signing sequences on every tiny asset (every writable format the harness can synthesise)
+    let seq_assets: Vec<&assets::Asset> = env.assets.iter().filter(|a| a.bytes.len() < 6000).collect();
+    let seqs = ["update", "edit-on-signed", "update-twice", "edit-then-update"];
+    let seq_work: Vec<(usize, &'static str, &'static str)> = seq_assets.iter().enumerate().flat_map(|(i, _)| seqs.iter().enumerate().map(move |(k, s)| (i, *s, signers::ALGS[(i + k) % 7].0))).collect();
+    let seq_results = par::par_map_watch(seq_work.len(), 600, |i| println!("INCONCLUSIVE: property=C03 watchdog: sequence {i} exceeded 600 s"), |i| run_sequence(seq_assets[seq_work[i].0], seq_work[i].1, seq_work[i].2));
+    for r in &seq_results {
+        run.eval();
+        run.nontrivial(r.class.clone());
+        run.count("resign_sequences", 1);
+        if r.violation.is_some() {
+            run.count(&format!("resign_failed:{}", r.class.split('|').skip(1).take(3).collect::<Vec<_>>().join("|")), 1);
+        }
+        run.sample(if r.violation.is_some() { "violating-sequence" } else { "held-sequence" }, 2, r.sample.clone());
+        if let Some((sig, what)) = &r.violation {
+            run.violation(sig, what, r.sample.clone());
         }
     }
     run.set("pairwise_rows", json!(pairwise_rows));
